@@ -86,10 +86,13 @@ fn bits_of(ty: IntTy) -> u32 {
 fn gen_vals(rng: &mut Rng, ty: IntTy, n: usize) -> Vec<Sym> {
     let b = bits_of(ty);
     let mask = if b == 128 { u128::MAX } else { (1u128 << b) - 1 };
-    let style = rng.below(5);
+    let style = rng.below(7);
     (0..n)
         .map(|_| {
             let v = match style {
+                // one symbol never occurs (no 0 / no 3 among the low bits)
+                5 => 1 + rng.below(3) as u128,
+                6 => rng.below(3) as u128 | (rng.below(64) as u128) << 2,
                 0 => rng.below(4) as u128,                        // proper symbols
                 1 => rng.next_u128(),                             // anything, negative included
                 2 => (rng.below(4) as u128) | (mask & !3),        // all high bits set: negative for signed types
@@ -105,7 +108,7 @@ fn gen_count(rng: &mut Rng) -> usize {
     match rng.below(8) {
         0 => 0,
         1 | 2 => rng.urange(1, 9),
-        3 | 4 => *rng.pick(&[127usize, 128, 129, 255, 256, 257, 511, 512, 513]),
+        3 | 4 => *rng.pick(&[127usize, 128, 129, 255, 256, 257, 383, 384, 385, 511, 512, 513, 639, 640, 641, 896, 1024, 1152]),
         _ => rng.urange(9, 400),
     }
 }
@@ -259,12 +262,17 @@ fn observe(qv: &QVector, m: &[u8], at: &str, out: &mut RunOut, digest: &mut Dige
                 adv(qv.iter()).size_hint(),
                 adv_owned(qv.clone().into_iter()).last(),
                 adv_owned(qv.clone().into_iter()).count(),
+                (adv(qv.iter()).min(), adv(qv.iter()).max(), adv_owned(qv.clone().into_iter()).min(), adv_owned(qv.clone().into_iter()).max()),
             )
         });
         let rem = n.saturating_sub(k);
         let e_last = if rem > 0 { m.last().copied() } else { None };
         match r {
-            Ok((l, c, (lo, hi), lo_, co)) => {
+            Ok((l, c, (lo, hi), lo_, co, mm)) => {
+                let e_mm = (m.iter().skip(k).copied().min(), m.iter().skip(k).copied().max());
+                if (mm.0, mm.1) != e_mm || (mm.2, mm.3) != e_mm {
+                    out.violate(sig("iter_min_max", "wrong_value", "general"), format!("{at}: after {k} x next() over {n} symbols (min(), max()) returned {:?} (borrowing) / {:?} (consuming), the pushed values give {e_mm:?}", (mm.0, mm.1), (mm.2, mm.3)));
+                }
                 if l != e_last || lo_ != e_last {
                     out.violate(sig("iter_last", "wrong_value", "general"), format!("{at}: after {k} x next() over {n} symbols last() returned {l:?} (borrowing) / {lo_:?} (consuming), the pushed values give {e_last:?}"));
                 }
